@@ -116,10 +116,10 @@ def gen_program(g: Gen, p: Program, rnd, rt: list):
                             val = from_view(f.ty, u(V))
                             args = f"{i}, {val}" if i is not None else val
                             exp = f"put_spec({u(R)}, {f.ranges_lit()}, {sh}, {u(V)})"
-                            g.add(f"    pub const {c}: {S} = {a}.with_{f.name}({args}); const _: () = assert!({s.pubraw(c)} == {exp});",
-                                  f"{p.pid}/{S}::with_{f.name}({ia + ', ' if ia else ''}{V:#x}) @ {R:#x}")
+                            g.add(f"    pub const {c}: {S} = {a}.with_{f.base}({args}); const _: () = assert!({s.pubraw(c)} == {exp});",
+                                  f"{p.pid}/{S}::with_{f.base}({ia + ', ' if ia else ''}{V:#x}) @ {R:#x}")
                             rargs = f"black_box({i}), black_box({val})" if i is not None else f"black_box({val})"
-                            rts.append(f"{{ let r_ = black_box({a}).with_{f.name}({rargs}); chk({s.pubraw('r_')} == {s.pubraw(c)}, \"{p.pid}/{S}::with_{f.name} @ {R:#x}\"); }}")
+                            rts.append(f"{{ let r_ = black_box({a}).with_{f.base}({rargs}); chk({s.pubraw('r_')} == {s.pubraw(c)}, \"{p.pid}/{S}::with_{f.base} @ {R:#x}\"); }}")
         if s.builder_expected():
             acc = u(s.start_value())
             calls, rcalls = [], []
@@ -130,13 +130,13 @@ def gen_program(g: Gen, p: Program, rnd, rt: list):
                     for i, V in enumerate(vals):
                         acc = f"put_spec({acc}, {f.ranges_lit()}, {i * f.stride}, {u(V)})"
                     arr = "[" + ", ".join(from_view(f.ty, u(V)) for V in vals) + "]"
-                    calls.append(f".with_{f.name}({arr})")
-                    rcalls.append(f".with_{f.name}(black_box({arr}))")
+                    calls.append(f".with_{f.base}({arr})")
+                    rcalls.append(f".with_{f.base}(black_box({arr}))")
                 else:
                     V = vs[-1]
                     acc = f"put_spec({acc}, {f.ranges_lit()}, 0, {u(V)})"
-                    calls.append(f".with_{f.name}({from_view(f.ty, u(V))})")
-                    rcalls.append(f".with_{f.name}(black_box({from_view(f.ty, u(V))}))")
+                    calls.append(f".with_{f.base}({from_view(f.ty, u(V))})")
+                    rcalls.append(f".with_{f.base}(black_box({from_view(f.ty, u(V))}))")
             c = cname()
             g.add(f"    pub const {c}: {S} = {S}::builder(){''.join(calls)}.build(); const _: () = assert!({s.pubraw(c)} == {acc});",
                   f"{p.pid}/{S}::builder()..build()")
